@@ -617,6 +617,234 @@ func rulesC19(c *Ctx) {
 		}
 		c.Check(okEsc, "jsonMarshal:no-html-escaping", jm, nil, "the message encoder disables HTML escaping (payload bytes are preserved)")
 	})
+
+	c.Rule("R-C19-7", "hand-written conversions between two protocol struct types copy every field the two types share: a composite literal S2{F: x.F, …} built from a value x of another struct type S1 names all fields common to S1 and S2 (custom MarshalJSON/UnmarshalJSON methods and the helpers they call)", func() {
+		structOf := func(t types.Type) (*types.Named, *types.Struct) {
+			if pt, ok := t.(*types.Pointer); ok {
+				t = pt.Elem()
+			}
+			n, _ := t.(*types.Named)
+			if n == nil {
+				return nil, nil
+			}
+			st, _ := n.Underlying().(*types.Struct)
+			return n, st
+		}
+		fieldsOf := func(st *types.Struct) map[string]bool {
+			m := map[string]bool{}
+			for i := 0; i < st.NumFields(); i++ {
+				f := st.Field(i) // embedded fields count too (Meta is embedded with a _meta tag): a literal names them by type
+				if tag, _ := jsonTag(st.Tag(i), f.Name()); tag == "-" {
+					continue
+				}
+				m[f.Name()] = true
+			}
+			return m
+		}
+		n := 0
+		// codec functions only: custom (Un)MarshalJSON methods and the SDK functions they call. Adapters elsewhere (e.g. the
+		// client synthesising an InitializeResult from a DiscoverResult) may legitimately carry over a subset.
+		codec := map[*Func]bool{}
+		var frontier []*Func
+		for _, rel := range []string{pM, pJ} {
+			for _, f := range c.funcsWithLits(rel) {
+				if f.Obj != nil && (f.Obj.Name() == "MarshalJSON" || f.Obj.Name() == "UnmarshalJSON") {
+					codec[f] = true
+					frontier = append(frontier, f)
+				}
+			}
+		}
+		for depth := 0; depth < 3; depth++ {
+			var next []*Func
+			for _, f := range frontier {
+				for _, call := range f.AllCalls(f.Body, true) {
+					if fn := f.Callee(call); fn != nil {
+						if g := c.P.FuncOf(fn); g != nil && !codec[g] {
+							codec[g] = true
+							next = append(next, g)
+						}
+					}
+				}
+			}
+			frontier = next
+		}
+		for _, rel := range []string{pM, pJ} {
+			for _, f := range c.funcsWithLits(rel) {
+				if !codec[f.Root()] {
+					continue
+				}
+				inspectNoLit(f.Body, func(x ast.Node) {
+					cl, ok := x.(*ast.CompositeLit)
+					if !ok || len(cl.Elts) < 2 {
+						return
+					}
+					dstN, dstS := structOf(f.TypeOf(cl))
+					if dstS == nil {
+						return
+					}
+					// wire-facing types only: some field carries a json tag
+					tagged := false
+					for i := 0; i < dstS.NumFields(); i++ {
+						if strings.Contains(dstS.Tag(i), "json:") {
+							tagged = true
+						}
+					}
+					if !tagged {
+						return
+					}
+					// same-named copies F: x.F, grouped by the source variable
+					bySrc := map[types.Object][]string{}
+					keys := map[string]bool{}
+					for _, e := range cl.Elts {
+						kv, isKV := e.(*ast.KeyValueExpr)
+						if !isKV {
+							return
+						}
+						k, isId := kv.Key.(*ast.Ident)
+						if !isId {
+							return
+						}
+						keys[k.Name] = true
+						if sel, isSel := ast.Unparen(kv.Value).(*ast.SelectorExpr); isSel && sel.Sel.Name == k.Name {
+							if o := f.ObjOf(sel.X); o != nil {
+								bySrc[o] = append(bySrc[o], k.Name)
+							}
+						}
+					}
+					for src, copied := range bySrc {
+						srcN, srcS := structOf(src.Type())
+						if srcS == nil || srcN == dstN || len(copied) < 2 {
+							continue
+						}
+						n++
+						var missing []string
+						srcF := fieldsOf(srcS)
+						for name := range fieldsOf(dstS) {
+							if srcF[name] && !keys[name] {
+								missing = append(missing, name)
+							}
+						}
+						sort.Strings(missing)
+						c.Check(len(missing) == 0, "convert:"+f.Name()+":"+srcN.Obj().Name()+"→"+dstN.Obj().Name(), f, cl, "the %s built from a %s copies %d same-named fields; shared fields not carried over: %v (a dropped field, e.g. _meta, disappears silently from the wire form)", dstN.Obj().Name(), srcN.Obj().Name(), len(copied), missing)
+					}
+				})
+			}
+		}
+		c.Pin("hand-written struct conversions in codec functions", n, 5)
+	})
+
+	c.Rule("R-C19-8", "decoding never panics on a JSON null inside a container: in UnmarshalJSON methods and the helpers they call, an element of a decoded map[K]*T or []*T is dereferenced only under a nil test (encoding/json stores nil for a null element)", func() {
+		// the decoder functions: every UnmarshalJSON of the protocol packages plus the SDK functions they call (3 levels)
+		dec := map[*Func]bool{}
+		var frontier []*Func
+		for _, rel := range []string{pM, pJ} {
+			for _, f := range c.funcsWithLits(rel) {
+				if f.Obj != nil && f.Obj.Name() == "UnmarshalJSON" {
+					dec[f] = true
+					frontier = append(frontier, f)
+				}
+			}
+		}
+		for depth := 0; depth < 3; depth++ {
+			var next []*Func
+			for _, f := range frontier {
+				for _, call := range f.AllCalls(f.Body, true) {
+					if fn := f.Callee(call); fn != nil {
+						if g := c.P.FuncOf(fn); g != nil && !dec[g] {
+							dec[g] = true
+							next = append(next, g)
+						}
+					}
+				}
+			}
+			frontier = next
+		}
+		ptrElem := func(t types.Type) bool {
+			switch u := t.Underlying().(type) {
+			case *types.Map:
+				_, ok := u.Elem().Underlying().(*types.Pointer)
+				return ok
+			case *types.Slice:
+				_, ok := u.Elem().Underlying().(*types.Pointer)
+				return ok
+			}
+			return false
+		}
+		// derefsUnguarded lists the field selections / explicit dereferences of obj in f that no non-nil test dominates
+		derefsUnguarded := func(f *Func, obj types.Object, within ast.Node) []ast.Node {
+			var out []ast.Node
+			g := f.Graph()
+			ast.Inspect(within, func(n ast.Node) bool {
+				var base ast.Expr
+				switch x := n.(type) {
+				case *ast.SelectorExpr:
+					if fld, ok := f.ObjOf(x).(*types.Var); ok && fld.IsField() {
+						base = x.X
+					}
+				case *ast.StarExpr:
+					base = x.X
+				}
+				if base == nil || f.ObjOf(base) != obj {
+					return true
+				}
+				v := g.VertexOf(n)
+				if v < 0 || !hasAtom(g.GuardsAt(v), func(a Atom) bool { return AtomSaysNil(a, false, func(e ast.Expr) bool { return f.ObjOf(e) == obj }) }) {
+					out = append(out, n)
+				}
+				return true
+			})
+			return out
+		}
+		n := 0
+		var fs []*Func
+		for f := range dec {
+			fs = append(fs, f)
+		}
+		sort.Slice(fs, func(i, j int) bool { return fs[i].Body.Pos() < fs[j].Body.Pos() })
+		for _, f := range fs {
+			if f.Lit != nil {
+				continue
+			}
+			c.touch(f)
+			inspectNoLit(f.Body, func(x ast.Node) {
+				rs, ok := x.(*ast.RangeStmt)
+				if !ok || rs.Value == nil || !ptrElem(f.TypeOf(rs.X)) {
+					return
+				}
+				v := f.ObjOf(rs.Value)
+				if v == nil {
+					return
+				}
+				n++
+				bad := derefsUnguarded(f, v, rs.Body)
+				// the element handed to another SDK function: that function must test its parameter first
+				for _, call := range f.AllCalls(rs.Body, false) {
+					fn := f.Callee(call)
+					if fn == nil {
+						continue
+					}
+					g := c.P.FuncOf(fn)
+					if g == nil {
+						continue
+					}
+					for i, a := range call.Args {
+						if f.ObjOf(a) == v && i < len(g.NonRecvParams()) {
+							for _, d := range derefsUnguarded(g, g.NonRecvParams()[i], g.Body) {
+								bad = append(bad, d)
+								_ = d
+							}
+						}
+					}
+				}
+				where := ""
+				if len(bad) > 0 {
+					where = c.P.Rel(bad[0].Pos())
+				}
+				c.Check(len(bad) == 0, "null-element:"+f.Name()+":"+f.FieldPath(rs.X), f, rs, "elements of %s (pointer elements filled by the JSON decoder) are dereferenced only after a nil test; unguarded dereference at %s: a null element makes the decoder panic", types.TypeString(f.TypeOf(rs.X), func(p *types.Package) string { return p.Name() }), where)
+			})
+		}
+		c.Pin("loops over decoded pointer containers in decoders", n, 2)
+	})
 }
 
 // typeHasStruct reports whether decoding into t can match struct field names.
